@@ -1424,7 +1424,7 @@ def run_remask(inp):
                             bad.append(f"{label} ({when}): `{nm_}` is not the caller's array under the dataset's own mask")
             except Exception as e: bad.append(f"{label} ({when}): reading data / noise_map raised {type(e).__name__}")     # noqa
     # PART F (Model/C11r.v): chains of apply_mask / looks only, on a dataset whose own mask is all false -> KRemask, evaluated in Coq
-    modelled = all(st["how"] in ("mask", "read") for st in inp["steps"]) and cfg.get("pad_for_convolver") is not True
+    modelled = bool(inp.get("pure")) and all(st["how"] in ("mask", "read") for st in inp["steps"]) and cfg.get("pad_for_convolver") is not True
     cidx = {0: 0}; cops = []; couts = []       # node index -> index among the datasets that exist (a derivation that raises makes none)
     def cview(ds):
         c = getattr(ds, "noise_covariance_matrix", None)
@@ -1504,8 +1504,9 @@ def rm_mask(rng, H, W, border, style, prev=None):
     return m
 def gen_remask(rng, k):
     H, W = rng.randint(5, 8), rng.randint(5, 8)
+    if k % 2 == 0: H, W = rng.randint(4, 6), rng.randint(4, 6)      # the KRemask cases carry the whole matrix into Coq: keep them small
     N = H * W
-    border = rng.choice([0, 1, 2, 2, 2])
+    border = min(rng.choice([0, 1, 2, 2, 2]), (min(H, W) - 1) // 2)
     cfg = {"shape": [H, W], "data": [rng.choice([rng.randint(0, 20), rng.randint(1, 99) / 8.0]) for _ in range(N)],
            "noise": [rng.choice([1, 2, 4, 0.5]) for _ in range(N)], "native": rng.random() < 0.4, "ps": rng.choice([1.0, 1.0, 0.5])}
     if k % 4 != 3:
@@ -1552,7 +1553,7 @@ def gen_remask(rng, k):
         else:
             steps.append({"how": "over_sampling", "d": d, "os": rng.choice([None, [2, 0, 0], [0, 0, 2]])})
             nodes.append(dict(n, dead=n["masked"]))
-    return {"op": "remask", "cfg": cfg, "steps": steps}
+    return {"op": "remask", "cfg": cfg, "steps": steps, "pure": pure}
 
 # ----------------------------------------------------------------------------- object REUSE: shared parts, several inversions
 def build_reuse(inp, only=None):
